@@ -9,6 +9,8 @@ import (
 	"github.com/plgd-dev/go-coap/v3/message"
 	"github.com/plgd-dev/go-coap/v3/message/codes"
 	"github.com/plgd-dev/go-coap/v3/message/pool"
+	"github.com/plgd-dev/go-coap/v3/net/responsewriter"
+	"github.com/plgd-dev/go-coap/v3/tcp/client"
 
 	"verif/ev"
 	"verif/mcx"
@@ -43,7 +45,16 @@ func tcpScenario(c tcfg) *mcx.Scenario {
 			onClose := 0
 			var w *tcpw.World
 			vrt.App("setup", func() {
-				w = tcpw.New(tcpw.Opts{LimitTotal: 2, LimitEndpoint: 2, QueueSize: 2, DisableCSM: true})
+				handlerGo, handlerRuns := false, 0
+				o := tcpw.Opts{LimitTotal: 2, LimitEndpoint: 2, QueueSize: 2, DisableCSM: true}
+				if c.Op == "full-queue" {
+					o.QueueSize = 1
+					o.Handler = func(*responsewriter.ResponseWriter[*client.Conn], *pool.Message) {
+						handlerRuns++
+						vrt.WaitUntil("application handler busy", func() bool { return handlerGo })
+					}
+				}
+				w = tcpw.New(o)
 				w.CC.AddOnClose(func() { onClose++ })
 				w.CC.AddOnClose(func() { onClose++ })
 				ctx, cancel := context.WithCancel(context.Background())
@@ -72,6 +83,21 @@ func tcpScenario(c tcfg) *mcx.Scenario {
 						err = w.CC.Ping(ctx)
 					case "idle":
 						vrt.Recv(w.CC.Done())
+					case "full-queue":
+						// one message in the busy handler, one queued, the read loop parked handing over the third
+						for i := 0; i < 3; i++ {
+							w.Inject(message.Message{Code: codes.GET, Token: message.Token{0xB0, byte(i)}})
+						}
+						vrt.WaitUntil("read loop parked on the full queue", func() bool { return len(w.St.In) == 0 && handlerRuns == 1 })
+						vrt.Quiesce("full queue")
+						for i := 0; i < 2; i++ {
+							vrt.App(fmt.Sprintf("closer%d", i), func() {
+								_ = w.CC.Close()
+								closes++
+							})
+						}
+						vrt.Recv(w.CC.Done())
+						handlerGo = true
 					}
 					returned = true
 					result = fmt.Sprint(err)
@@ -86,7 +112,7 @@ func tcpScenario(c tcfg) *mcx.Scenario {
 						}
 					})
 				case "close2":
-					for i := 0; i < 2; i++ {
+					for i := 0; i < 2 && c.Op != "full-queue"; i++ {
 						vrt.App(fmt.Sprintf("closer%d", i), func() {
 							_ = w.CC.Close()
 							closes++
@@ -136,5 +162,6 @@ func addSessionScenarios(r *ev.Run, scs *[]*mcx.Scenario) {
 			*scs = append(*scs, tcpScenario(tcfg{Op: op, Intr: in, Preempt: ev.Pick(r, 1, 2)}))
 		}
 	}
+	*scs = append(*scs, tcpScenario(tcfg{Op: "full-queue", Intr: "close2", Preempt: ev.Pick(r, 1, 2)}))
 	addUDPSessionScenarios(r, scs)
 }
